@@ -546,9 +546,25 @@ def poolRemove (s : State) (p : Nat) : State :=
     else { s with pools := setAt s.pools p (fun q => { q with removed := true, active := [] }),
                   tasks := s.tasks ++ pool.active.map Task.close }
 
-/-- `msgTimeout` once every pending deadline has passed -/
-def expire (S : Strs) (s : State) : State :=
-  let s1 := s.timeouts.foldl (fun s f =>
+/-- the deadlines of fragments that are still unanswered, earliest first (an entry whose fragment is done - a sibling
+    of a request that was failed - is dropped by `msgTimeout` without effect whenever it reaches the head) -/
+def liveDeadlines (s : State) : List FragRef :=
+  s.timeouts.filter (fun f =>
+    match f with
+    | .frag mi slot =>
+      match s.req mi with
+      | some r =>
+        match getFrag r.m slot with
+        | some fr => !fr.done
+        | none => false
+      | none => false
+    | _ => false)
+
+/-- `msgTimeout` when the `n` earliest deadlines of unanswered fragments have passed and no later one has
+    (deadline = write time + the configured timeout, so deadline order is write order; `n ≥` the number of pending
+    deadlines: all of them) -/
+def expire (S : Strs) (s : State) (n : Nat) : State :=
+  let s1 := ((liveDeadlines s).take n).foldl (fun s f =>
     match f with
     | .frag mi slot =>
       match s.req mi with
@@ -563,7 +579,7 @@ def expire (S : Strs) (s : State) : State :=
             let m2 : MMsg := { m1 with err := S.errTimeout, rspBody := S.errTimeout, fragDone := m1.frags.length, done := true }
             flushClient (s.updReq mi (fun r => { r with m := m2 })) r.owner
     | _ => s) s
-  { s1 with timeouts := [] }
+  { s1 with timeouts := (liveDeadlines s).drop n }
 
 /-! ### events -/
 
@@ -574,7 +590,7 @@ inductive Event
   | runTasks
   | backendBytes (b : Nat) (chunk : Bytes)
   | backendClose (b : Nat)
-  | expire
+  | expire (n : Nat)
   | poolRemove (p : Nat)
   deriving Repr
 
@@ -587,7 +603,7 @@ def step (T : Tables) (S : Strs) (cfg : Cfg) (slotFn : Bytes → Nat) (s : State
   | .runTasks => runTasks S cfg s
   | .backendBytes b chunk => backendBytes T S cfg slotFn s b chunk
   | .backendClose b => backendClose S s b
-  | .expire => expire S s
+  | .expire n => expire S s n
   | .poolRemove p => poolRemove s p
 
 /-- start-up: the configured pools and slot table, every pool connected once (RedisPreconnect), no client yet -/
